@@ -278,6 +278,8 @@ def _canon_ast(ast):
     for st in ast:
         if isinstance(st, dict) and "body" in st:
             st = dict(st, body=_canon_ast(st["body"]))
+        if isinstance(st, dict) and isinstance(st.get("attrs"), list):
+            st = dict(st, attrs=sorted(st["attrs"], key=lambda a: json.dumps(a, sort_keys=True)))     # attribute order is free
         out.append(json.dumps(st, sort_keys=True, separators=(",", ":")))
     return sorted(out)
 
@@ -674,7 +676,8 @@ def main():
         "checker_cmd": pr["checker_cmd"],
         "trusted_base": ["Lean 4.33.0 kernel", "axioms: " + ", ".join(sorted({a for l in pr["axioms"].values() for a in l}) or ["none"]),
                          "hand-written model tied to /repo by differential execution (tools/check.py, harness/digexec)",
-                         "package reflect, fmt, strconv.ParseBool, runtime code pointers: modelled, not verified"],
+                         "package reflect, fmt, strconv.ParseBool / strconv.Quote, html.EscapeString, runtime code pointers: modelled, not verified",
+                         "reflect.Type.String() and the runtime names of functions are inputs of the text comparison (K-dottext), not modelled"],
         "theorems": pr["obligations"], "axioms_per_theorem": pr["axioms"],
         "evaluations": evaluations, "distinct_nontrivial": ntriv,
         "traces_validated_against_impl": evaluations - skipped,
